@@ -4,6 +4,7 @@
    (getRecordBatchExplicitTSVHeader), pkg/lib/tsv_codec.go (TSVDecodeField), pkg/mlrval/mlrmap_accessors.go
    (PutReferenceMaybeDedupe), all with the default reader options (IFS "," / " " / TAB, IPS "=", IRS LF, dedupe on,
    comments are data, no ragged, explicit TSV header). *)
+From Coq Require Import DecimalString DecimalN.
 From Miller Require Import Base.Bytes Base.Record.
 Open Scope char_scope.
 
@@ -14,7 +15,7 @@ Definition TAB : ascii := "009".
 Inductive result :=
 | Ok (rs : list record)
 | ErrMismatch (nheader ndata line : N)   (* "mlr: mlr: TSV header/data length mismatch %d != %d at filename %s line %d" *)
-| OutOfFuel.                              (* model artefact only: never an implementation behaviour *)
+| OutOfFuel.                              (* model artefact only; proved unreachable (Proofs.read_*_fuel_ok) *)
 
 (* ---- lines: ReadString('\n'), strip "\n" or "\r\n"; a final unterminated piece is a line iff non-empty *)
 Definition finish_line (cur_rev : bytes) : bytes :=
@@ -53,14 +54,8 @@ Definition is_blank (c : ascii) : bool := Ascii.eqb c " " || Ascii.eqb c TAB.
 Definition strip_empties (l : list bytes) : list bytes :=
   filter (fun x => match x with [] => false | _ => true end) l.
 
-(* ---- strconv.Itoa for non-negative numbers *)
-Fixpoint dec_aux (fuel : nat) (n : N) (acc : bytes) : bytes :=
-  match fuel with
-  | O => acc
-  | S f => let d := ascii_of_N (48 + n mod 10) in
-           if (n <? 10)%N then d :: acc else dec_aux f (n / 10)%N (d :: acc)
-  end.
-Definition N_to_dec (n : N) : bytes := dec_aux 30 n [].
+(* ---- strconv.Itoa for non-negative numbers (the standard library's decimal printer: no fuel, no leading zeros) *)
+Definition N_to_dec (n : N) : bytes := list_ascii_of_string (NilEmpty.string_of_uint (N.to_uint n)).
 
 (* ---- PutReferenceMaybeDedupe(key, value, dedupe=true): a second "a" becomes "a_2", then "a_3", ... *)
 Fixpoint fresh_key (fuel : nat) (k : bytes) (i : N) (r : record) : option bytes :=
